@@ -2,6 +2,6 @@
 # runs every thorough check once, sequentially (evidence files are rewritten by each)
 cd "$(dirname "$0")"
 for i in 01 02 03 04 05 06 07 08 09 10 11 12 13 14 15 16 17 18 19 20; do
-  t0=$(date +%s); out=$(./run C$i thorough 2>&1 | tail -1); rc=$?
+  t0=$(date +%s); full=$(./run C$i thorough 2>&1); rc=$?; out=$(echo "$full" | tail -1)
   echo "C$i rc=$rc $(( $(date +%s) - t0 ))s $out" | cut -c1-200
 done
